@@ -767,52 +767,103 @@ Qed.
 
 (** C13_hull as stated (no lower bound on the range) is false: fs = 100 Hz,
     set_time(0.053 s) (pole 0.195, b = 0.402), then the constant input 4 * 2^-149:
-    the third output is 5 * 2^-149 (the subnormal products round up). *)
+    the third output is 5 * 2^-149 (the subnormal products round up).
+    (Floats carry proof terms, so nothing here compares computed floats by [vm_compute];
+    only booleans, lengths and [B2SF] images are computed.) *)
+
+Definition shape (c : coeffs) : Prop := k_b1 c = k_b0 c /\ k_a2 c = f_0 /\ k_b2 c = f_0.
+
+Lemma from_params_shape : forall fs f0 c, from_params fs f0 = Some c -> shape c.
+Proof.
+  intros fs f0 c. unfold from_params. destruct (flt fs (fmul f_2 f0)); [discriminate|].
+  intros H. injection H as <-. unfold shape. cbn [k_b1 k_b0 k_a2 k_b2]. auto.
+Qed.
+
+Lemma glide_new_shape : forall fs g, glide_new fs = Some g -> shape (d_c (g_lpf g)).
+Proof.
+  intros fs g. unfold glide_new.
+  destruct (hz_ok fs && hz_ok (fdiv fs GL_DIV)); [|discriminate].
+  destruct (from_params fs (fdiv fs GL_DIV)) as [c|] eqn:E; [|discriminate].
+  intros H. inversion H. cbn [g_lpf df1_new d_c]. exact (from_params_shape _ _ _ E).
+Qed.
+
+Lemma set_time_shape : forall g t g', shape (d_c (g_lpf g)) -> glide_set_time g t = Some g' ->
+  shape (d_c (g_lpf g')).
+Proof.
+  intros g t g' Hs. unfold glide_set_time.
+  destruct (is_almost t (g_cached_t g) GL_EPS).
+  - intros H. inversion H. subst. exact Hs.
+  - destruct (hz_ok (glide_f0 g t)); [|discriminate].
+    destruct (from_params (g_fs g) (glide_f0 g t)) as [c|] eqn:E; [|discriminate].
+    intros H. inversion H. cbn [g_lpf d_c]. exact (from_params_shape _ _ _ E).
+Qed.
 
 Definition hx_fs : f32 := of_Z 100.
 Definition hx_x : f32 := of_bits 4.
-Definition hx_ops : list glide_op :=
-  [GSetTime (fdiv (of_Z 53) (of_Z 1000)); GProcess hx_x; GProcess hx_x; GProcess hx_x].
+Definition hx_t : f32 := fdiv (of_Z 53) (of_Z 1000).
+Definition hx_ops : list glide_op := [GSetTime hx_t; GProcess hx_x; GProcess hx_x; GProcess hx_x].
 Definition hx_g0 : glide :=
   match glide_new hx_fs with Some g => g | None => mkGlide f_0 f_0 f_0 cex_d0 f_0 end.
 Definition hx_ys : list f32 :=
   match glide_outputs hx_g0 hx_ops with Some ys => ys | None => [] end.
 Definition hx_c0 : coeffs := d_c (g_lpf hx_g0).
 Definition hx_c1 : coeffs :=
-  match glide_set_time hx_g0 (fdiv (of_Z 53) (of_Z 1000)) with
-  | Some g => d_c (g_lpf g) | None => cex_c end.
+  match glide_set_time hx_g0 hx_t with Some g => d_c (g_lpf g) | None => cex_c end.
+
+Definition is_some {A : Type} (o : option A) : bool := match o with Some _ => true | None => false end.
 
 Lemma hx_new : glide_new hx_fs = Some hx_g0.
-Proof. vm_compute. reflexivity. Qed.
+Proof.
+  unfold hx_g0. destruct (glide_new hx_fs) eqn:E; [reflexivity|].
+  assert (H : is_some (glide_new hx_fs) = true) by (vm_compute; reflexivity).
+  rewrite E in H. discriminate H.
+Qed.
 
 Lemma hx_out : glide_outputs hx_g0 hx_ops = Some hx_ys.
-Proof. vm_compute. reflexivity. Qed.
+Proof.
+  unfold hx_ys. destruct (glide_outputs hx_g0 hx_ops) eqn:E; [reflexivity|].
+  assert (H : is_some (glide_outputs hx_g0 hx_ops) = true) by (vm_compute; reflexivity).
+  rewrite E in H. discriminate H.
+Qed.
 
-Lemma hx_used : coeffs_used hx_g0 hx_ops = [hx_c0; hx_c1; hx_c1; hx_c1; hx_c1].
-Proof. vm_compute. reflexivity. Qed.
+Lemma hx_shape0 : shape hx_c0.
+Proof. exact (glide_new_shape _ _ hx_new). Qed.
+
+Lemma hx_shape1 : shape hx_c1.
+Proof.
+  unfold hx_c1. destruct (glide_set_time hx_g0 hx_t) as [g|] eqn:E.
+  - exact (set_time_shape _ _ _ hx_shape0 E).
+  - unfold shape, cex_c. cbn [k_b1 k_b0 k_a2 k_b2]. auto.
+Qed.
 
 Lemma hx_good0 : good hx_c0 /\ / 2 <= speed hx_c0.
 Proof.
+  destruct hx_shape0 as (E1 & E2 & E3).
   unfold good, speed.
   assert (F1 : fin (k_a1 hx_c0)) by fin_const.
   assert (F2 : fin (k_b0 hx_c0)) by fin_const.
-  assert (E1 : k_b1 hx_c0 = k_b0 hx_c0) by (vm_compute; reflexivity).
-  assert (E2 : k_a2 hx_c0 = f_0) by (vm_compute; reflexivity).
-  assert (E3 : k_b2 hx_c0 = f_0) by (vm_compute; reflexivity).
   r32_const (k_a1 hx_c0). r32_const (k_b0 hx_c0).
   repeat split; try assumption; try lra. apply Rabs_le. lra.
 Qed.
 
 Lemma hx_good1 : good hx_c1 /\ / 2 <= speed hx_c1.
 Proof.
+  destruct hx_shape1 as (E1 & E2 & E3).
   unfold good, speed.
   assert (F1 : fin (k_a1 hx_c1)) by fin_const.
   assert (F2 : fin (k_b0 hx_c1)) by fin_const.
-  assert (E1 : k_b1 hx_c1 = k_b0 hx_c1) by (vm_compute; reflexivity).
-  assert (E2 : k_a2 hx_c1 = f_0) by (vm_compute; reflexivity).
-  assert (E3 : k_b2 hx_c1 = f_0) by (vm_compute; reflexivity).
   r32_const (k_a1 hx_c1). r32_const (k_b0 hx_c1).
   repeat split; try assumption; try lra. apply Rabs_le. lra.
+Qed.
+
+Lemma hx_used : Forall (fun c => good c /\ / 2 <= speed c) (coeffs_used hx_g0 hx_ops).
+Proof.
+  unfold hx_ops. cbn [coeffs_used glide_step].
+  apply Forall_cons; [exact hx_good0|].
+  pose proof hx_good1 as G1. unfold hx_c1 in G1.
+  destruct (glide_set_time hx_g0 hx_t) as [g1|]; [|apply Forall_nil].
+  rewrite !glide_process_eq. cbn [fst g_lpf d_c].
+  repeat (apply Forall_cons; [exact G1|]). apply Forall_nil.
 Qed.
 
 Lemma hx_x_val : R32 hx_x = 4 * / 713623846352979940529142984724747568191373312.
@@ -831,20 +882,20 @@ Theorem hull_unbounded_false : ~ (forall fs g0 ops lo hi kappa ys,
             lo - resolution kappa * Rmax (- lo) hi <= R32 y <= hi + resolution kappa * Rmax (- lo) hi) ys).
 Proof.
   intros H.
-  specialize (H hx_fs hx_g0 hx_ops 0 (R32 hx_x) (/ 2) hx_ys hx_new).
+  specialize (H hx_fs hx_g0 hx_ops 0 (R32 hx_x) (/ 2) hx_ys hx_new hx_used).
   assert (Hmax : Rmax (- 0) (R32 hx_x) = R32 hx_x).
   { rewrite Rmax_right; [reflexivity|]. rewrite hx_x_val. lra. }
   rewrite Hmax in H.
   assert (Fx : fin hx_x) by fin_const.
   assert (Hin : op_input_in 0 (R32 hx_x) (GProcess hx_x)).
   { cbn [op_input_in]. split; [exact Fx|]. rewrite hx_x_val. lra. }
-  specialize (H ltac:(rewrite hx_used; repeat constructor;
-                      try apply hx_good0; try apply hx_good1)
-                ltac:(lra) ltac:(rewrite hx_x_val; lra)
-                ltac:(rewrite hx_x_val, bpow_64; lra)
-                ltac:(unfold hx_ops; repeat constructor; exact Hin) hx_out).
+  assert (Hops : Forall (op_input_in 0 (R32 hx_x)) hx_ops).
+  { unfold hx_ops. apply Forall_cons; [exact I|]. apply Forall_cons; [exact Hin|].
+    apply Forall_cons; [exact Hin|]. apply Forall_cons; [exact Hin|]. apply Forall_nil. }
+  specialize (H ltac:(lra) ltac:(rewrite hx_x_val; lra)
+                ltac:(rewrite hx_x_val, bpow_64; lra) Hops hx_out).
   rewrite Forall_nth in H. specialize (H 2%nat f_0).
   destruct H as (_ & _ & H).
-  - vm_compute. lia.
+  - assert (L : length hx_ys = 3%nat) by (vm_compute; reflexivity). rewrite L. lia.
   - rewrite hx_y_val, hx_x_val in H. unfold resolution in H. lra.
 Qed.
